@@ -1,6 +1,6 @@
 """C05 -- differentiate returns the partial derivatives in variable order (structural clauses)."""
 from ..core import Ctx, Ob, PropSpec
-from ..rules import r5 as r5_, r4, r2, r3, r7, r8, r7i, r4r
+from ..rules import r5 as r5_, r4, r2, r3, r7, r8, r7i, r4r, extra, r14
 
 DIFF = "cirkit.symbolic.functional.differentiate"
 
@@ -21,6 +21,8 @@ def run(ctx: Ctx) -> list[Ob]:
     obs += r5_.r5d(ctx)
     obs += [o for o in r4.layer_contracts(ctx, {'R4b'}) if o.construct.endswith('TorchPolynomialLayer')]
     obs += r3.r3k(ctx)
+    obs += extra.differentiate_outputs(ctx)
+    obs += r14.inplace_reduce(ctx, ('cirkit.symbolic',))
     return obs
 
 
@@ -38,6 +40,7 @@ SPEC = PropSpec(
         " R5d (exponent ramp, by abstract interpretation with integer-ramp values and slice origins): in TorchPolynomialDifferential.forward, for order 1 and 2 (3 in the thorough tier), every product of a slice of the coefficient axis with an integer ramp pairs the coefficient of x^n with the multiplier n (slice origin == first value of the ramp), one such step per order -- a hoisted arange sliced by the loop counter multiplies the later steps by shifted numbers of the right shape."
         " R5d zero-branch: TorchPolynomialDifferential.forward returns the constant zero only on paths that exclude dp1 > order (degree >= order): the k-th derivative of a degree-k polynomial is k!*a_k. R4b on TorchPolynomialLayer with a degree that may be 0 (differentiate produces constant polynomials whenever order >= degree): forward still returns (F, B, Ko) -- a Horner loop that starts from the leading coefficient and runs zero times loses the batch axis."
         " R3k: every constructor hyper-parameter of a concrete symbolic layer (everything but its params and *_factory alternatives) is a key of its config and round-trips through it -- Layer.copyref(), the copy every operator makes of a layer it does not transform, rebuilds the layer from config (a constant layer that loses log_space is read as linear by the next operator)."
+        " R7e (outputs of differentiate): the outputs argument of Circuit.from_operation is one traversal of sc.outputs in which every output contributes its whole block list (differentials in variable order, then the copy), so a multi-output operand yields [d o1.., o1, d o2.., o2]. R14i: no functools.reduce with an in-place operator and no initial value in the symbolic package (it would grow the block list stored for the first layer, which is read again for the outputs). R5d converse: on paths with dp1 <= order TorchPolynomialDifferential.forward returns the constant zero (min / max of symbolic integers are forked on their order)."
     ),
     not_decided="the product rule itself and floating-point values (numerical); derivative coefficients only in the step-wise slice * ramp formulation R5d models.",
     run=run,
